@@ -154,20 +154,53 @@ def replay_jaxfield(sp):
                 input="JaxDiscreteField([[0.3,1.7]]).__%s__(%s)" % (name, form))
 
 
-def replay_hash_args(sp):
+def jacobian_cache_sequences():
+    """(label, first call, second call, in-place update between the calls or None) on the 2x2 tensor quad mesh; shared by the C15 unit and its replay"""
+    X = np.array([[.2, .7, .1, .9], [.3, .4, .8, .6]])
+    buf = X[:, :2].copy()
+
+    def refill():
+        buf[:] = X[:, 2:]
+    return [
+        ("tind-dtype", (X[:, :2], np.array([1], dtype=np.int64)), (X[:, :2], np.array([1, 0], dtype=np.int32)), None),
+        ("X-shape", (X, None), (X.reshape(2, 4, 1), None), None),
+        ("tind-subsets", (X[:, :3], np.array([0, 2])), (X[:, :3], np.array([1, 3])), None),
+        ("X-values", (X[:, :2], None), (X[:, 2:], None), None),
+        ("X-buffer-reused", (buf, None), (buf, None), refill),      # the same array OBJECT, new contents before the second call
+    ]
+
+
+def jacobian_cache_case(label):
+    """-> (ok, detail): detDF(args2) after detDF(args1) [and the in-place update] on one mapping == detDF(args2) on a fresh mapping"""
     import skfem as fem
     m = fem.MeshQuad.init_tensor(np.array([0., .4, 1.]), np.array([0., .3, 1.]))
-    X = np.array([[.2, .7], [.3, .4]])
-    used = m._mapping()
-    used.detDF(X, np.array([1], dtype=np.int64))
-    fresh = fem.MeshQuad(m.p.copy(), m.t.copy())._mapping().detDF(X, np.array([1, 0], dtype=np.int32))
+    p = m.p.copy()
+    p[:, np.argmin(np.abs(p[0] - .4) + np.abs(p[1] - .3))] += np.array([.07, -.05])      # non-parallelogram cells: the Jacobian depends on the point
+    m = fem.MeshQuad(p, m.t.copy())
+    (_, a, b, upd), = [q for q in jacobian_cache_sequences() if q[0] == label]
+    fresh = lambda: fem.MeshQuad(m.p.copy(), m.t.copy())._mapping()
     try:
-        got = used.detDF(X, np.array([1, 0], dtype=np.int32))
-        bad = got.shape != fresh.shape or not np.array_equal(got, fresh)
-        obs = "shape %s vs %s" % (got.shape, fresh.shape)
+        used = m._mapping()
+        used.detDF(*a)
+        if upd is not None:
+            upd()
+        got = used.detDF(*b)
+        want = fresh().detDF(*[None if v is None else v.copy() for v in b])
+        ok = got.shape == want.shape and np.array_equal(got, want)
+        return ok, "" if ok else ("second call returned shape %s, fresh mapping %s, max difference %s" % (got.shape, want.shape, float(np.max(np.abs(got - want))) if got.shape == want.shape else "n/a"))
     except Exception as e:
-        bad, obs = True, "raised %s" % e
-    return dict(confirmed=bool(bad), observed=obs, required="result of a fresh mapping", input="detDF(X, tind=int64[1]) then detDF(X, tind=int32[1,0]) on one MappingIsoparametric")
+        try:
+            fresh().detDF(*b)
+            return False, "used mapping raised %s, fresh mapping did not" % type(e).__name__
+        except Exception:
+            return True, ""
+
+
+def replay_hash_args(sp):
+    label = sp.get("case", "tind-dtype")
+    ok, det = jacobian_cache_case(label)
+    return dict(confirmed=bool(not ok), observed=det or "equal to the fresh mapping", required="result of a fresh mapping",
+                input="sequence %r: detDF(args1), [in-place update of the point array], detDF(args2) on one MappingIsoparametric" % label)
 
 
 def replay_element_global(sp):
